@@ -93,12 +93,18 @@ TARGETS = [
         (r'(?<![\w.])min\(', 'min3(', 1),
         (r'\bmemcpy\((.*?)\);', r'memcpy2_(\1, dest, src);', 1),
         (r'dest \+= stepsize;', 'D_ADVANCE(dest, stepsize);', 1), (r'src \+= stepsize;', 'S_ADVANCE(src, stepsize);', 1)],
-        marks={'count': 1, 0: dict(name='CP', frame=['size', 'dest', 'src', 'OBS_HITS', 'CP_DONE'],
-               effects={'D_ADVANCE': ['dest'], 'S_ADVANCE': ['src'], 'memcpy2_': ['OBS_HITS'], 'DS_STEP': []},
+        marks={'count': 1, 0: dict(name='CP', frame=['size', 'dest', 'src', 'OBS_HITS', 'CP_DONE', 'SARR', 'S_OFF_G'],
+               effects={'D_ADVANCE': ['dest'], 'S_ADVANCE': ['src', 'SARR', 'S_OFF_G'], 'memcpy2_': ['OBS_HITS'], 'DS_STEP': []},
                pure=['D_EMPTY', 'S_EMPTY', 'D_FRONT', 'S_FRONT', 'min3'])}),
     Target('memcpy_iov', CPP, r'size_t iovector_view::memcpy_iov\(iovector_view d, iovector_view s, size_t size\)', rules=[
         (r'return _copy_pipe_iov\(iov_iterator\(d\), iov_iterator\(s\), size\);',
          '{ struct iov_iterator di_, si_; iovit_ctor(&di_, d); iovit_ctor(&si_, s); return copy_pipe_iov_it_it(&di_, &si_, size); }', 1)]),
+    Target('srcx_pluseq', CPP, r'void operator\+=\(size_t n\) (?=\{\s*assert\(!this->empty\(\)\);)', rules=[
+        (r'__auto_type& v = this->front\(\);|auto& v = this->front\(\);', 'struct iovec *v = iovv_front(this);', 1), (r'\bv\.iov_len', 'v->iov_len', 1),
+        (r'\bv \+= n;', 'iovec_advance(v, n);', 1), (r'this->pop_front\(\)', 'iovv_pop_front(this)', 1)]),
+    Target('pipe_iov', CPP, r'size_t iovector_view::pipe_iov\(iovector_view d, iovector_view& src, size_t size\)', rules=[
+        (r'return _copy_pipe_iov\(iov_iterator\(d\), \(src_extractor<iovector_view>&&\)src, size\);',
+         '{ struct iov_iterator di_; iovit_ctor(&di_, d); return copy_pipe_iov_it_view(&di_, src, size); }', 1)]),
     Target('slice', CPP, r'ssize_t iovector_view::slice\(size_t count, off_t offset, iovector_view\* /\*OUT\*/ iov\) const', rules=[
         (r'__auto_type it = begin\(\);', 'const struct iovec *it = iovv_cbegin(this);', 1), (r'__auto_type e = end\(\);', 'const struct iovec *e = iovv_cend(this);', 1),
         (r'\{\s*if \(pos \+ \(off_t\)it->iov_len > offset\)\s*break;', '{ SLA_TOP if (pos + (off_t)it->iov_len > offset) break;', 1),
@@ -140,6 +146,8 @@ PROOFS = [
           bound='at most 16 source elements and 16 output slots (input-size bound; both loops are closed by their invariants), any lengths / offset / count'),
     Proof('extract_back/iov', 'iov.c', 'h_extract_back_iov', kind='L', min_obligations=10, backend='cadical', defines=['NMAX=16'], timeout=2400, checks=CHECKS,
           bound='at most 16 elements and output slots (input-size bound), any lengths and byte count'),
+    Proof('pipe_iov', 'iov.c', 'h_pipe_iov', kind='L', min_obligations=10, backend='cadical', defines=['NMAX=16'], timeout=2400, checks=CHECKS,
+          bound='at most 16 destination and 16 source elements (input-size bound), any lengths, 0-element destination views included'),
     Proof('iov_iterator/ctor', 'iov.c', 'h_it_ctor', kind='L', min_obligations=4, **CV),
     Proof('lemma/pre_mono', 'iov.c', 'lemma_pre_mono', kind='L', min_obligations=3, **CV),
 ]
